@@ -1,4 +1,4 @@
-from . import coordapi
+from . import coordapi, staticshards
 from . import cycle, sidecar, proxy, store, k8s, discovery, explore, pipeline, cfgsync, inject, loop, replicas
 CHECKS = {}
 for p in cycle.PROPS:
@@ -20,5 +20,5 @@ CHECKS['C06'] = loop.check
 CHECKS['C19'] = replicas.check
 CHECKS['C05'] = loop.check_c05
 # beyond the listed properties (evidence under /verif/evidence/extra)
-EXTRA = {'X01': coordapi.check}
+EXTRA = {'X01': coordapi.check, 'X02': staticshards.check}
 CHECKS.update(EXTRA)
